@@ -15,6 +15,7 @@ import (
 	"github.com/wrgl/wrgl/pkg/slice"
 	"github.com/wrgl/wrgl/pkg/sorter"
 	"github.com/wrgl/wrgl/pkg/testutils"
+	"github.com/wrgl/wrgl/pkg/vhook"
 )
 
 type RowCollector struct {
@@ -66,6 +67,7 @@ func (c *RowCollector) CollectResolvedRow(errChan chan<- error, origChan <-chan 
 				// don't emit resolved row
 				continue
 			}
+			vhook.Yield("collector.send")
 			mergeChan <- m
 		}
 	}()
